@@ -104,22 +104,34 @@ class WMSServer(Server):
                 sub_size, offset, sub_bbox = bbox_position_in_image(params.bbox, params.size, limited_extent.bbox)
                 query = MapQuery(sub_bbox, sub_size, SRS(params.srs), params.format)
 
-        actual_layers = odict()
+        requested_layers = []
+        all_layers = odict()
         for layer_name in map_request.params.layers:
             layer = self.layers[layer_name]
             # only add if layer renders the query
             if layer.renders_query(query):
-                # if layer is not transparent and will be rendered,
-                # remove already added (then hidden) layers
-                if layer.is_opaque(query):
-                    actual_layers = odict()
+                layer_names = []
                 for layer_name, map_layers in layer.map_layers_for_query(query):
-                    actual_layers[layer_name] = map_layers
+                    all_layers[layer_name] = map_layers
+                    layer_names.append(layer_name)
+                requested_layers.append((layer, layer_names))
 
         authorized_layers, coverage = self.authorized_layers(
-            'map', actual_layers.keys(), map_request.http.environ, query_extent=(query.srs.srs_code, query.bbox))
+            'map', all_layers.keys(), map_request.http.environ, query_extent=(query.srs.srs_code, query.bbox))
 
-        self.filter_actual_layers(actual_layers, map_request.params.layers, authorized_layers)
+        self.filter_actual_layers(all_layers, map_request.params.layers, authorized_layers)
+
+        actual_layers = odict()
+        for layer, layer_names in requested_layers:
+            permitted = [name for name in layer_names if name in all_layers]
+            # if layer is not transparent and will be rendered completely (nothing of it
+            # was removed or limited to an area), remove already added (then hidden) layers
+            restricted = len(permitted) != len(layer_names) or any(
+                isinstance(map_layer, LimitedLayer) for name in permitted for map_layer in all_layers[name])
+            if not restricted and layer.is_opaque(query):
+                actual_layers = odict()
+            for name in permitted:
+                actual_layers[name] = all_layers[name]
 
         render_layers = []
         for layers in actual_layers.values():
